@@ -25,7 +25,7 @@ EXPLANATION = (
     '(the list the regeneration rule depends on); R2a every documented test key is projected from the TestSerialisation field '
     'mtest reads; R2b install plan tag/subproject are the fields Installer.should_install filters on and the five installed '
     'categories are covered; R2c list_installed derives source and destination from the same fields as the per-kind installers; '
-    'R3 mintro and the backend agree on the target output directory for both layouts; R5 a path-like build definition file is recorded only '
+    'R3 mintro and the backend agree on the target output directory for both layouts, and a target class whose get_outputs() are per-source object names (returned by object_filename_from_source, emitted by the compile statement below get_target_private_dir) is reported below that private directory; R5 a path-like build definition file is recorded only '
     'after the build-directory test, which precedes the source-directory test (the build dir may be nested in the source dir); R4 introspection is generated only after '
     'backend.generate returned, for the same build/backend pair. '
     'R1h every per-source builder whose object generate_target links records its source; R2e every target class recorded as a test dependency '
@@ -458,7 +458,10 @@ def r3(ctx: RuleCtx) -> None:
         else:
             used = loc.resolve(arm) if isinstance(arm, ast.Name) else arm
         good = is_call_on(used, p_backend, 'get_target_private_dir') and isinstance(used, ast.Call) and [norm(a) for a in used.args] == [tvar] and not used.keywords
-        same_as_general = arm is None or norm(used) == norm(outdir)
+        # positive evidence: the directory used for k is the general one, or another call of the linked-outputs directory function
+        same_as_general = arm is None or norm(used) == norm(outdir) or (
+            isinstance(used, ast.Call) and isinstance(outdir, ast.Call) and norm(used.func) == norm(outdir.func)
+            and 'get_target_private_dir' not in {call_method(c) for c in ast.walk(used) if isinstance(c, ast.Call)})
         judge(ctx, good, f'{qn}: outputs of {k} (per-source objects, self.{diverted[k]}) are reported below {p_backend}.get_target_private_dir({tvar})',
               same_as_general, mod, qn, f"'filename': directory of per-source outputs ({k})",
               f'{k}.get_outputs() are the per-source object names (self.{diverted[k]}): the compile statement generates them in '
